@@ -96,6 +96,8 @@ def cases(tier, seed):
         out.append(dict(kind='pair', n=n, spec=spec, kg=kgl, basis=basis, null=nullpat, num=num, sparse=sparse, seed=seed))
     for model, fb, (m, n), num, sparse in itertools.product(['plate', 'cpanel'], ['SSSS', 'CCCC', 'CFFF'], [(8, 7), (7, 9)], [1, 3, 5], [1, 0]):
         out.append(dict(kind='panel', model=model, fbase=fb, m=m, n=n, num=num, sparse=sparse, seed=seed))
+    for model, alpha, num, comb in itertools.product(['clpt_donnell_bc1', 'clpt_donnell_bc3', 'fsdt_donnell_bc1'], [0., 25.], [1, 4], [0, 1, 2]):
+        out.append(dict(kind='shell', model=model, alpha=alpha, num=num, comb=comb, seed=seed))
     return out
 
 
@@ -189,5 +191,38 @@ def check_panel(case):
     return dict(fails=fails[:4], execs=2, transitions=2, nontrivial=1)
 
 
+def check_shell(case):
+    """ConeCyl.lb: eigenpairs of (k0 [+ constant part], kG0 of the varied load) on the rows/columns beyond the prescribed amplitudes"""
+    from scipy.linalg import eigh
+    from ..ref import shell as rs
+    fails = []
+    cfg = dict(model=case['model'], alphadeg=case['alpha'], m1=3, m2=3, n2=4, s=40, Fc=1.0e3, P=-2.0e3 if case['comb'] == 2 else 0.0,
+               T=20.0 if case['comb'] == 1 else 0.0)
+    cc = rs.shell_of(cfg)
+    cc.num_eigvalues = case['num']
+    try:
+        cc.lb(combined_load_case=case['comb'] or None)
+    except Exception as e:
+        return dict(fails=[fail('ConeCyl.lb raised', sig=None, case=case, error=repr(e)[:300])], nontrivial=1)
+    pos = 3
+    K0 = cc.k0.toarray()
+    if case['comb'] == 0:
+        M, A = K0, cc.kG0.toarray()
+    elif case['comb'] == 1:
+        M, A = K0 + cc.kG0_T.toarray(), cc.kG0_Fc.toarray()
+    else:
+        M, A = K0 + cc.kG0_P.toarray(), cc.kG0_Fc.toarray()
+    Md, Ad = M[pos:, pos:], A[pos:, pos:]
+    act = np.where(np.abs(Md).sum(axis=0) != 0)[0]
+    mu = eigh(-Ad[np.ix_(act, act)], Md[np.ix_(act, act)], eigvals_only=True)
+    exact = 1.0 / mu[np.abs(mu) > 1e-13 * np.abs(mu).max()]
+    vecs = np.asarray(cc.eigvecs)
+    if vecs.shape[0] != K0.shape[0] or np.abs(vecs[:pos]).max() != 0:
+        fails.append(fail('ConeCyl.lb modes are not expanded with zeros on the prescribed amplitudes', sig=None, case=case))
+    else:
+        judge(Md, Ad, cc.eigvals, vecs[pos:], act, fails, dict(case=case), exact=exact, ordered=True, num=case['num'])
+    return dict(fails=fails[:4], execs=1, transitions=1, nontrivial=1)
+
+
 def check_case(case):
-    return check_pair(case) if case['kind'] == 'pair' else check_panel(case)
+    return dict(pair=check_pair, panel=check_panel, shell=check_shell)[case['kind']](case)
